@@ -540,7 +540,11 @@ class Ctx:
             "infra_errors": self.infra_errors,
             "notes": self.notes,
         }
-        with open(os.path.join(VERIF, "evidence", "%s.json" % self.pid), "w") as f:
+        # evidence/<id>.json describes runs against /repo only; runs against another checkout (VERIF_REPO:
+        # mutation / seeded-change testing) write to build/evidence-alt/ instead
+        evdir = os.path.join(VERIF, "evidence") if os.path.realpath(REPO) == "/repo" else os.path.join(VERIF, "build", "evidence-alt")
+        os.makedirs(evdir, exist_ok=True)
+        with open(os.path.join(evdir, "%s.json" % self.pid), "w") as f:
             json.dump(ev, f, indent=1, default=str)
         if not self.violations and not self.infra_errors and not os.environ.get("VERIF_KEEP"):
             shutil.rmtree(self.scratch, ignore_errors=True)
